@@ -473,7 +473,7 @@ func buildField(ww *conversionVisitor, node sourcewalk.FieldNode) (*descriptorpb
 				}
 
 				if st.Integer.Rules.Maximum != nil {
-					if st.Integer.Rules.ExclusiveMaximum != nil {
+					if !st.Integer.Rules.GetExclusiveMaximum() {
 						rules.GetInt32().LessThan = &validate.Int32Rules_Lte{
 							Lte: int32(*st.Integer.Rules.Maximum),
 						}
@@ -485,7 +485,7 @@ func buildField(ww *conversionVisitor, node sourcewalk.FieldNode) (*descriptorpb
 				}
 
 				if st.Integer.Rules.Minimum != nil {
-					if st.Integer.Rules.ExclusiveMinimum != nil {
+					if !st.Integer.Rules.GetExclusiveMinimum() {
 						rules.GetInt32().GreaterThan = &validate.Int32Rules_Gte{
 							Gte: int32(*st.Integer.Rules.Minimum),
 						}
@@ -502,7 +502,7 @@ func buildField(ww *conversionVisitor, node sourcewalk.FieldNode) (*descriptorpb
 				}
 
 				if st.Integer.Rules.Maximum != nil {
-					if st.Integer.Rules.ExclusiveMaximum != nil {
+					if !st.Integer.Rules.GetExclusiveMaximum() {
 						rules.GetInt64().LessThan = &validate.Int64Rules_Lte{
 							Lte: *st.Integer.Rules.Maximum,
 						}
@@ -514,7 +514,7 @@ func buildField(ww *conversionVisitor, node sourcewalk.FieldNode) (*descriptorpb
 				}
 
 				if st.Integer.Rules.Minimum != nil {
-					if st.Integer.Rules.ExclusiveMinimum != nil {
+					if !st.Integer.Rules.GetExclusiveMinimum() {
 						rules.GetInt64().GreaterThan = &validate.Int64Rules_Gte{
 							Gte: *st.Integer.Rules.Minimum,
 						}
@@ -531,7 +531,7 @@ func buildField(ww *conversionVisitor, node sourcewalk.FieldNode) (*descriptorpb
 				}
 
 				if st.Integer.Rules.Maximum != nil {
-					if st.Integer.Rules.ExclusiveMaximum != nil {
+					if !st.Integer.Rules.GetExclusiveMaximum() {
 						rules.GetUint32().LessThan = &validate.UInt32Rules_Lte{
 							Lte: uint32(*st.Integer.Rules.Maximum),
 						}
@@ -543,7 +543,7 @@ func buildField(ww *conversionVisitor, node sourcewalk.FieldNode) (*descriptorpb
 				}
 
 				if st.Integer.Rules.Minimum != nil {
-					if st.Integer.Rules.ExclusiveMinimum != nil {
+					if !st.Integer.Rules.GetExclusiveMinimum() {
 						rules.GetUint32().GreaterThan = &validate.UInt32Rules_Gte{
 							Gte: uint32(*st.Integer.Rules.Minimum),
 						}
@@ -560,7 +560,7 @@ func buildField(ww *conversionVisitor, node sourcewalk.FieldNode) (*descriptorpb
 				}
 
 				if st.Integer.Rules.Maximum != nil {
-					if st.Integer.Rules.ExclusiveMaximum != nil {
+					if !st.Integer.Rules.GetExclusiveMaximum() {
 						rules.GetUint64().LessThan = &validate.UInt64Rules_Lte{
 							Lte: uint64(*st.Integer.Rules.Maximum),
 						}
@@ -572,7 +572,7 @@ func buildField(ww *conversionVisitor, node sourcewalk.FieldNode) (*descriptorpb
 				}
 
 				if st.Integer.Rules.Minimum != nil {
-					if st.Integer.Rules.ExclusiveMinimum != nil {
+					if !st.Integer.Rules.GetExclusiveMinimum() {
 						rules.GetUint64().GreaterThan = &validate.UInt64Rules_Gte{
 							Gte: uint64(*st.Integer.Rules.Minimum),
 						}
